@@ -269,7 +269,16 @@ int64_t carquet_rle_decoder_skip(
  * ============================================================================
  */
 
-static void write_varint(carquet_buffer_t* buf, uint32_t value) {
+/* Append to the output buffer; a failure to grow it is kept in enc->status
+ * and reported by the next put/flush call. */
+static void enc_append(carquet_rle_encoder_t* enc, const uint8_t* bytes, size_t len) {
+    carquet_status_t status = carquet_buffer_append(enc->buffer, bytes, len);
+    if (status != CARQUET_OK && enc->status == CARQUET_OK) {
+        enc->status = status;
+    }
+}
+
+static void write_varint(carquet_rle_encoder_t* enc, uint32_t value) {
     uint8_t bytes[5];
     int len = 0;
 
@@ -279,14 +288,14 @@ static void write_varint(carquet_buffer_t* buf, uint32_t value) {
     }
     bytes[len++] = (uint8_t)value;
 
-    carquet_buffer_append(buf, bytes, (size_t)len);
+    enc_append(enc, bytes, (size_t)len);
 }
 
 static void flush_rle(carquet_rle_encoder_t* enc) {
     if (enc->repeat_count == 0) return;
 
     /* Write RLE header: (count << 1) | 0 */
-    write_varint(enc->buffer, (uint32_t)(enc->repeat_count << 1));
+    write_varint(enc, (uint32_t)(enc->repeat_count << 1));
 
     /* Write value (ceil(bit_width/8) bytes) */
     int value_bytes = (enc->bit_width + 7) / 8;
@@ -294,7 +303,7 @@ static void flush_rle(carquet_rle_encoder_t* enc) {
     for (int i = 0; i < value_bytes; i++) {
         bytes[i] = (uint8_t)(enc->prev_value >> (i * 8));
     }
-    carquet_buffer_append(enc->buffer, bytes, (size_t)value_bytes);
+    enc_append(enc, bytes, (size_t)value_bytes);
 
     enc->repeat_count = 0;
 }
@@ -309,13 +318,13 @@ static void flush_bitpack(carquet_rle_encoder_t* enc) {
 
     /* Write bit-packed header: (num_groups << 1) | 1 */
     int num_groups = (int)((enc->bitpack_total + 7) / 8);
-    write_varint(enc->buffer, (uint32_t)((num_groups << 1) | 1));
+    write_varint(enc, (uint32_t)((num_groups << 1) | 1));
 
     /* Write packed data for all groups */
     uint8_t packed[32];  /* Max for 32-bit values, 8 values */
     for (int g = 0; g < num_groups; g++) {
         carquet_bitpack8_32(enc->bitpack_buffer, enc->bit_width, packed);
-        carquet_buffer_append(enc->buffer, packed, (size_t)enc->bit_width);
+        enc_append(enc, packed, (size_t)enc->bit_width);
 
         /* Shift remaining values */
         /* Note: This simplified impl assumes we flush after each group */
@@ -446,7 +455,7 @@ carquet_status_t carquet_rle_encoder_flush(carquet_rle_encoder_t* enc) {
         }
     }
 
-    return CARQUET_OK;
+    return enc->status;
 }
 
 /* ============================================================================
